@@ -7,6 +7,8 @@ an object denotes; `r.get` / `r.shape` the one denotation of a scalar / dense / 
 -/
 import PyttbModel.Lemmas.MLTtvUser
 import PyttbModel.Lemmas.MLSparseCollapse
+import PyttbModel.Lemmas.MLTucker
+import PyttbModel.Lemmas.MLMttkrpW
 namespace Pyttb
 
 variable {α : Type}
@@ -92,6 +94,83 @@ theorem C02_ttv_sparse_dims [CommSemiring α] [DecidableEq α] (S : Sparse α) (
       ∀ i, InBounds r.shape i → r.get i = Spec.ttv S.den d w i :=
   ML.sparse_ttv_dims S hS d vs hd hN hl hsz w hw
 
+/-! ### tensor times matrix -/
+
+/-- Dense single-mode `ttm` (permute the mode first, F-reshape, matmul, reshape, permute back),
+plain and transposed: `Y[i] = Σ_k M_eff[i_n, k]·X[i with i_n ↦ k]`, mode-`n` extent replaced by the
+number of rows of the effective matrix. -/
+theorem C02_ttm_dense_mode [CommSemiring α] (T : Dense α) (hT : T.WF) (M : Mat α) (p q n : Nat) (tr : Bool)
+    (hn : n < T.shape.length) (hsz : (if tr then p else q) = T.shape.getD n 0) :
+    ∃ Y, T.ttmMode M p q n tr = .ok Y ∧ Y.WF ∧ Y.shape = T.shape.set n (if tr then q else p) ∧
+      ∀ i, InBounds Y.shape i → Y.get i = sumRange (T.shape.getD n 0) fun k =>
+        (if tr then M.get k (i.getD n 0) else M.get (i.getD n 0) k) * T.get (i.set n k) :=
+  ML.dense_ttmMode_spec T hT M p q n tr hn hsz
+
+/-- Dense `ttm` with a list of matrices over distinct modes (the pairs are what the mode
+designation lemmas above produce): `Y[i] = Σ_{k = i off sel} X[k]·∏_{d ∈ sel} M_d[i_d, k_d]`, where
+`Mf d` is the effective (possibly transposed) matrix of mode `d`; selected extents become the row
+counts, the other extents are kept. -/
+theorem C02_ttm_dense [CommSemiring α] (T : Dense α) (hT : T.WF) (tr : Bool) (Mf : Nat → Nat → Nat → α)
+    (pairs : List (Nat × Dense.MatArg α)) (hnd : (pairs.map (·.1)).Nodup)
+    (hlt : ∀ p ∈ pairs, p.1 < T.shape.length)
+    (hsz : ∀ p ∈ pairs, (if tr then p.2.m else p.2.n) = T.shape.getD p.1 0)
+    (hM : ∀ p ∈ pairs, ∀ a b, Mf p.1 a b = if tr then p.2.rows.get b a else p.2.rows.get a b) :
+    ∃ Y, T.ttmList pairs tr = .ok Y ∧ Y.WF ∧ Y.shape.length = T.shape.length ∧
+      (∀ d, d ∉ pairs.map (·.1) → Y.shape.getD d 0 = T.shape.getD d 0) ∧
+      (∀ p ∈ pairs, Y.shape.getD p.1 0 = if tr then p.2.n else p.2.m) ∧
+      ∀ i, InBounds Y.shape i → Y.get i = Spec.ttm T.den (pairs.map (·.1)) Mf i :=
+  ML.dense_ttmList_spec T hT tr Mf pairs hnd hlt hsz hM
+
+/-- The definition of a multi-mode product peels off one mode at a time (so the order in which the
+single-mode products are applied cannot matter). -/
+theorem C02_ttm_spec_peel [CommSemiring α] (X : Den α) (sel : List Nat) (n : Nat) (M : Nat → Nat → Nat → α)
+    (i : List Nat) (hn : n < X.shape.length) (hns : n ∉ sel) (hil : i.length = X.shape.length) :
+    Spec.ttm X (sel ++ [n]) M i =
+      sumRange (X.shape.getD n 0) fun x => M n (i.getD n 0) x * Spec.ttm X sel M (i.set n x) :=
+  ML.spec_ttm_snoc X sel n M i hn hns hil
+
+/-- Tucker `full` (= `core.ttm(all factors)`): the expanded tensor has the Tucker tensor's shape
+and entries `Σ_j G[j] ∏ₙ Uₙ[iₙ, jₙ]`. -/
+theorem C02_tucker_full [CommSemiring α] (T : Ttensor α) (hT : ML.TuckerWF T) (hN : 1 ≤ T.factors.length) :
+    ∃ D, T.full = .ok D ∧ D.shape = T.shape ∧ D.WF ∧ ∀ i, InBounds D.shape i → D.get i = T.get i :=
+  ML.tucker_full_spec T hT hN
+
+/-! ### matricized tensor times Khatri-Rao product -/
+
+/-- Dense `mttkrp` with a list of factor matrices, all three branches of the code (mode first /
+last / in the middle, each with its own reshapes and Khatri-Rao products in reverse order):
+entry `[i, r]` is `Σ_{k, k_n = i} X[k] ∏_{m ≠ n} U_m[k_m, r]`. -/
+theorem C02_mttkrp_dense [CommSemiring α] (T : Dense α) (U : List (Mat α)) (n R : Nat)
+    (hT : T.WF) (hN2 : 2 ≤ T.shape.length) (hn : n < T.shape.length) (hlen : U.length = T.shape.length)
+    (hrows : ∀ m, m < T.shape.length → m ≠ n → (U.getD m []).length = T.shape.getD m 0)
+    (hcols : ∀ m, m < T.shape.length → m ≠ n → ∀ row ∈ U.getD m [], row.length = R)
+    (hpos : ∀ e ∈ T.shape, 0 < e) :
+    ∃ V, T.mttkrpCore U n = .ok V ∧
+      ∀ i r, i < T.shape.getD n 0 → r < R →
+        V.get i r = Spec.mttkrp T.den (fun m x c => (U.getD m []).get x c) (fun _ => 1) n i r :=
+  ML.dense_mttkrpCore_spec T U n R hT hN2 hn hlen hrows hcols hpos
+
+/-- The weights of a Kruskal operand: `get_mttkrp_factors` absorbs them into mode 1 (when `n = 0`)
+or mode 0, and column `r` of the answer is `λ_r` times the answer for the bare factor list. Stated at
+the level of the definition: absorbing `λ` into ANY one factor other than `n` gives the same value. -/
+theorem C02_mttkrp_weights_spec [CommSemiring α] (X : Den α) (Uf : Nat → Nat → Nat → α) (w : Nat → α)
+    (n mm i r : Nat) (hmm : mm < X.shape.length) (hne : mm ≠ n) :
+    Spec.mttkrp X (fun m x c => if m = mm then Uf m x c * w c else Uf m x c) (fun _ => 1) n i r =
+      Spec.mttkrp X Uf w n i r := ML.spec_mttkrp_absorb X Uf w n mm i r hmm hne
+
+/-- Dense `mttkrp` with a Kruskal operand (weights non-unit, negative or zero alike). -/
+theorem C02_mttkrp_dense_kruskal [CommSemiring α] (T : Dense α) (K : Ktensor α) (n R : Nat)
+    (hT : T.WF) (hN2 : 2 ≤ T.shape.length) (hn : n < T.shape.length) (hlen : K.factors.length = T.shape.length)
+    (hw : K.weights.length = R)
+    (hrows : ∀ m, m < T.shape.length → m ≠ n → (K.factors.getD m []).length = T.shape.getD m 0)
+    (hcols : ∀ m, m < T.shape.length → m ≠ n → ∀ row ∈ K.factors.getD m [], row.length = R)
+    (hpos : ∀ e ∈ T.shape, 0 < e) :
+    ∃ V, T.mttkrp (.kruskal K) n = .ok V ∧
+      ∀ i r, i < T.shape.getD n 0 → r < R →
+        V.get i r = Spec.mttkrp T.den (fun m x c => (K.factors.getD m []).get x c)
+          (fun r => K.weights.getD r 0) n i r :=
+  ML.dense_mttkrp_kruskal_spec T K n R hT hN2 hn hlen hw hrows hcols hpos
+
 /-! ### inner product and norm -/
 
 /-- Dense inner product is `Σ_k A[k]·B[k]`; different shapes are rejected. -/
@@ -122,14 +201,15 @@ theorem C02_norm_sparse [CommSemiring α] [DecidableEq α] (S : Sparse α) (hS :
 /-! ### sparse scale / contract / collapse -/
 
 /-- Sparse `scale` by a dense tensor, a sparse tensor or a plain array over the selected modes
-(taken in increasing order, however `dims` lists them): `Y[i] = X[i]·F[i[sel]]` at EVERY subscript. -/
+(taken in increasing order, however `dims` lists them): `Y[i] = X[i]·F[i[sel]]` at EVERY subscript;
+vanishing products are not stored, so the result is a well-formed sparse tensor. -/
 theorem C02_scale_sparse [CommSemiring α] [DecidableEq α] (S : Sparse α) (hS : S.WF) (F : Sparse.ScaleFactor α)
     (d : List Nat) (hd : d.Nodup) (hN : ∀ x ∈ d, x < S.shape.length) (Fden : Den α)
     (hF : match F with
       | .dense D => D.shape = gather S.shape (sdimsOf d) ∧ Fden = D.den
       | .sparse G => G.shape = gather S.shape (sdimsOf d) ∧ G.WF ∧ Fden = G.den
       | .array v => d.length = 1 ∧ [v.length] = gather S.shape (sdimsOf d) ∧ Fden = (⟨[v.length], v⟩ : Dense α).den) :
-    ∃ Y, S.scale F (d.map Int.ofNat) = .ok Y ∧ Y.shape = S.shape ∧
+    ∃ Y, S.scale F (d.map Int.ofNat) = .ok Y ∧ Y.shape = S.shape ∧ Y.WF ∧
       ∀ i, Y.get i = Spec.scale S.den Fden (sdimsOf d) i := ML.sparse_scale_spec S hS F d hd hN Fden hF
 
 /-- Sparse `contract` of two distinct modes of equal extent on every branch (nothing stored,
